@@ -64,6 +64,7 @@ RULE_PATTERNS = [(re.compile(p), r) for p, r in [
     (r'^incorrect number of dimensions passed to deref', 'derefDims'),
     (r'^incorrect types of arguments passed to deref', 'derefIndex'),
     (r'^cannot compose type', 'pipeNotFunc'),
+    (r'^enum record \S+ takes', 'guardBinds'),
     (r'^no function or expression in the main unit', 'emptyMainUnit'),
     (r'^a function declared here needs a name', 'funcNoName'),
     (r'^functions are different', 'branchFuncs'),
@@ -295,7 +296,7 @@ def build_cases(seed, nprog, size, stats):
         cases.append(dict(kind="P", rule=None, src=src, sx=sx, seed=s, ctx=[], exp_line=None, exp_rule=None, note=""))
         # which of the D11 constructs this program contains (shares reported in the evidence)
         for tag, pat in (("tuples", "(tuple "), ("projections", "(proj "), ("ranges", "(range "), ("slices", "(slice "), ("forin", "(forin "),
-                         ("pipes", "(pipe "), ("matches", "(match "), ("iflet", "(iflet "), ("range_slice_params", " (rng "), ("nd_arrays", "(sub"), ("tuple_types", "(tup ")):
+                         ("pipes", "(pipe "), ("matches", "(match "), ("iflet", "(iflet "), ("enum_records", "(enumrec "), ("record_guards", "(grec "), ("ctors", "(ctor "), ("range_slice_params", " (rng "), ("nd_arrays", "(sub"), ("tuple_types", "(tup ")):
             if pat in sx:
                 stats["P_with_" + tag] = stats.get("P_with_" + tag, 0) + 1
         for k, v in g.stats.items():
